@@ -11,7 +11,7 @@ from ..facts import conjuncts, disjuncts, loop_bound_values
 from ..fold import Unknown, fold_in_fn, fold_name
 from ..lexsim import LexerSim, TokenStub
 from ..minieval import Unsupported
-from ..model import AnalysisError, ancestors, parent, text, walk_fn
+from ..model import AnalysisError, Undecided, ancestors, parent, text, walk_fn
 from .c05 import _cfg_node_of_expr, _early_exit_guards, _pop_sites, _regex_may_match
 
 BASE_KINDS = {"SPACE", "TAB", "NEWLINE", "IDENTIFIER", "CONSTANT", "STRING", "CHAR_CONST", "COMMENT", "MULT_COMMENT"}
@@ -54,7 +54,7 @@ def _kind_determines_char(prog, fn, popcall):
                 return False, f" (on {ch!r}: token {tok!r}, {sim.pos} character(s) consumed)"
             kinds.setdefault(tok.type, []).append(ch)
     except Unsupported as e:
-        raise AnalysisError(f"Lexer.{fn.name} is outside the evaluable subset: {e}")
+        raise Undecided(f"Lexer.{fn.name} is outside the evaluable subset: {e}")
     clash = {k: v for k, v in kinds.items() if len(v) > 1}
     if clash:
         k, v = sorted(clash.items())[0]
@@ -522,7 +522,7 @@ def rule_tables(run, prog):
                 if not (got == T[tname][k] and sim.pos == len(k)):
                     missing.append(f"{k!r} -> {got}")
         except Unsupported as e:
-            raise AnalysisError(f"Lexer.{fname} is outside the evaluable subset: {e}")
+            raise Undecided(f"Lexer.{fname} is outside the evaluable subset: {e}")
         run.ob("R-10.4", f"{fn.key}::covers[{tname}]", not missing,
                f"spelling(s) {missing[:6]} of {tname} can never be produced by {fname}: they are tokenized as something else",
                fn.node, producible=len(T[tname]) - len(missing))
@@ -581,7 +581,7 @@ def rule_parsers(run, prog):
                        f"{sim.pos} character(s) skipped, diagnostics {sim.error_names()} (expected every sub-parser in order, then "
                        f"one BAD_LEXEME, one character skipped)")
     except Unsupported as e:
-        raise AnalysisError(f"Lexer.get_next_token is outside the evaluable subset: {e}")
+        raise Undecided(f"Lexer.get_next_token is outside the evaluable subset: {e}")
     loops = [x for x in walk_fn(gnt.node) if isinstance(x, ast.For) and "parsers" in text(x.iter)]
     run.ob("R-10.5", f"{gnt.key}::first-match-then-bad-lexeme", why is None,
            "get_next_token does not try every sub-parser before declaring a bad lexeme: " + (why or ""),
